@@ -35,12 +35,12 @@
 #include <stdio.h>
 
 enum { CL_CUT_IN_SC, CL_ONEBYTE, CL_CORRUPT, CL_H265, CL_VALID, CL_SEED, CL_MULTI_AU, CL_3SC, CL_TZ, CL_PREFIX_PS,
-       CL_SEGCUT, CL_MUTATED, CL_ARBITRARY, CL_ESC, CL_NOOUT, CL_MANY_AU, CL_CUT_AFTER_SC, CL_LEADZ };
+       CL_SEGCUT, CL_MUTATED, CL_ARBITRARY, CL_ESC, CL_NOOUT, CL_MANY_AU, CL_CUT_AFTER_SC, CL_LEADZ, CL_CONVERTED };
 static const char *const class_names[] = {
     "cut_inside_start_code", "one_octet_buffers", "corrupt_input", "h265", "reference_stream", "recorded_stream",
     "ge2_access_units", "has_3_octet_start_code", "trailing_zero_octets", "parameter_sets_prepended",
     "segment_boundary_inside_buffer", "mutated_stream", "arbitrary_octets", "emulation_prevention_in_stream",
-    "no_output_at_all", "ge4_access_units", "cut_right_after_start_code", "leading_zero_octets", NULL };
+    "no_output_at_all", "ge4_access_units", "cut_right_after_start_code", "leading_zero_octets", "output_converted", NULL };
 
 #define MAXCUT 64
 struct cutting { int n; size_t pos[MAXCUT]; bool seg[MAXCUT]; };   /* boundaries strictly inside (0,len) */
@@ -63,10 +63,10 @@ static bool is_prefix_type(bool h265, const uint8_t *hdr)
 }
 
 /* feeds the stream under a cutting and releases the framer */
-static void do_run(struct run *r, bool h265, const uint8_t *p, size_t len, const struct cutting *c, bool onebyte)
+static void do_run(struct run *r, bool h265, uint8_t out_encaps, const uint8_t *p, size_t len, const struct cutting *c, bool onebyte)
 {
     memset(r, 0, sizeof(*r));
-    r->err = fx_open(&r->fx, h265);
+    r->err = fx_open(&r->fx, h265, out_encaps);
     if (r->err) return;
     if (onebyte) {
         size_t one = 1;
@@ -249,6 +249,11 @@ static int run(const uint8_t *tp_, size_t len_, struct vp_report *rep, unsigned 
         for (int i = 0; i < n; i++) for (int j = i + 1; j < n; j++) if (tmp[j] < tmp[i]) { size_t a = tmp[i]; tmp[i] = tmp[j]; tmp[j] = a; bool b = tseg[i]; tseg[i] = tseg[j]; tseg[j] = b; }
         for (int i = 0; i < n; i++) if (cut.n == 0 || cut.pos[cut.n - 1] != tmp[i]) { cut.pos[cut.n] = tmp[i]; cut.seg[cut.n] = tseg[i]; cut.n++; }
     }
+    /* output encapsulation asked by the sink: Annex B, or (upipe_h26xf_convert_frame on the framer's own NAL
+     * offsets) 4-octet lengths, bare NAL units, 2-octet lengths */
+    uint8_t oe = UREF_H26X_ENCAPS_ANNEXB;
+    { uint8_t v = tp_u8(&t); if (v % 4 == 3) oe = v / 4 % 3 == 0 ? UREF_H26X_ENCAPS_LENGTH4 : v / 4 % 3 == 1 ? UREF_H26X_ENCAPS_NALU : UREF_H26X_ENCAPS_LENGTH2; }
+    int plen = oe == UREF_H26X_ENCAPS_LENGTH4 ? 4 : oe == UREF_H26X_ENCAPS_LENGTH2 ? 2 : 0;
     bool cut_in_sc = false, cut_after_sc = false, segcut = false;
     for (int i = 0; i < cut.n; i++) {
         if (cut.seg[i]) { segcut = true; continue; }
@@ -259,7 +264,7 @@ static int run(const uint8_t *tp_, size_t len_, struct vp_report *rep, unsigned 
     }
 
     uint64_t h = vp_hash_bytes(VP_HASH_INIT, st, len);
-    h = vp_hash_mix(h, (uint64_t)h265 << 8 | kind);
+    h = vp_hash_mix(h, (uint64_t)oe << 16 | (uint64_t)h265 << 8 | kind);
     for (int i = 0; i < cut.n; i++) h = vp_hash_mix(h, cut.pos[i] * 2 + cut.seg[i]);
 
     if (render) {
@@ -283,6 +288,7 @@ static int run(const uint8_t *tp_, size_t len_, struct vp_report *rep, unsigned 
         R("  octets:");
         for (size_t i = 0; i < len && i < 400; i++) R(" %02x", st[i]);
         if (len > 400) R(" ...");
+        R("\n  output encapsulation asked by the sink: %s", oe == UREF_H26X_ENCAPS_ANNEXB ? "ANNEXB" : oe == UREF_H26X_ENCAPS_LENGTH4 ? "LENGTH4" : oe == UREF_H26X_ENCAPS_LENGTH2 ? "LENGTH2" : "NALU");
         R("\n  cutting:");
         for (int i = 0; i < cut.n; i++) R(" %zu%s", cut.pos[i], cut.seg[i] ? "s" : "");
         R("\n");
@@ -290,9 +296,9 @@ static int run(const uint8_t *tp_, size_t len_, struct vp_report *rep, unsigned 
 
     /* ---- three runs ---- */
     struct cutting none; memset(&none, 0, sizeof(none));
-    do_run(&runs[0], h265, st, len, &none, false);
-    do_run(&runs[1], h265, st, len, &none, true);
-    do_run(&runs[2], h265, st, len, &cut, false);
+    do_run(&runs[0], h265, oe, st, len, &none, false);
+    do_run(&runs[1], h265, oe, st, len, &none, true);
+    do_run(&runs[2], h265, oe, st, len, &cut, false);
 
     for (int r = 0; r < 3 && ret == 0; r++)
         if (runs[r].err) ret = vp_internal(rep, "fixture (%s): %s", cutname[r], runs[r].err);
@@ -318,7 +324,7 @@ static int run(const uint8_t *tp_, size_t len_, struct vp_report *rep, unsigned 
         static size_t pq[256], pp[256];
         int bad = 0;
         if (fx->nout > 256) { ret = vp_internal(rep, "more than 256 outputs"); break; }
-        const char *m = check_pieces(h265, fx, st, len, pq, pp, &bad, msg, sizeof(msg));
+        const char *m = oe == UREF_H26X_ENCAPS_ANNEXB ? check_pieces(h265, fx, st, len, pq, pp, &bad, msg, sizeof(msg)) : NULL;
         if (m) { ret = vp_fail(rep, "C17/framer/pieces", "%s: %s", cutname[r], m); break; }
         if (!valid) continue;
         /* V: expected access units */
@@ -335,6 +341,35 @@ static int run(const uint8_t *tp_, size_t len_, struct vp_report *rep, unsigned 
                 break;
             }
             const struct fx_out *o = &fx->out[no];
+            if (oe != UREF_H26X_ENCAPS_ANNEXB) {
+                /* the access unit re-serialised by the harness: [length] NAL unit ..., offsets at each NAL unit */
+                static uint8_t ex[ES_MAX * 2];
+                static size_t s2[512], h2[512];
+                size_t el = 0, eoff[512]; int nn = 0;
+                int n2 = es_scan(st + as, ae - as, s2, h2, 512);
+                for (int k = 0; k < n2; k++) {
+                    size_t b = as + h2[k], e2 = k + 1 < n2 ? as + s2[k + 1] : ae, nl = e2 - b;
+                    eoff[nn++] = el;
+                    if (plen == 4) { ex[el++] = nl >> 24; ex[el++] = nl >> 16; }
+                    if (plen) { ex[el++] = nl >> 8; ex[el++] = nl; }
+                    memcpy(ex + el, st + b, nl); el += nl;
+                }
+                if (o->size != el || memcmp(o->bytes, ex, el)) {
+                    size_t k = 0; while (k < el && k < o->size && o->bytes[k] == ex[k]) k++;
+                    ret = vp_fail(rep, "C17/framer/converted", "%s: output %d (%zu octets, %s requested) is not access unit %d = octets [%zu,%zu) re-serialised with %d-octet lengths (%zu octets; first difference at %zu)", cutname[r], no, o->size, plen ? "lengths" : "bare NAL units", x, as, ae, plen, el, k);
+                    break;
+                }
+                bool ok = (o->noff == nn - 1) || (o->noff == nn && o->off[nn - 1] == o->size);
+                for (int q = 0; ok && q < nn - 1; q++) if (o->off[q] != eoff[q + 1]) ok = false;
+                if (!ok && !fx->out_truncated) {
+                    char a[200] = "", b[200] = ""; size_t la = 0, lb = 0;
+                    for (int q = 0; q < o->noff && la < 180; q++) la += snprintf(a + la, sizeof(a) - la, " %llu", (unsigned long long)o->off[q]);
+                    for (int q = 1; q < nn && lb < 180; q++) lb += snprintf(b + lb, sizeof(b) - lb, " %zu", eoff[q]);
+                    ret = vp_fail(rep, "C17/framer/converted-offsets", "%s: output %d (%zu octets, converted): NAL offset attributes are {%s }, its NAL units start at {%s }", cutname[r], no, o->size, a, b);
+                    break;
+                }
+                continue;
+            }
             size_t L = ae - as;
             if (o->size < L || memcmp(o->bytes + (o->size - L), st + as, L)) {
                 ret = vp_fail(rep, "C17/framer/au", "%s: output %d (%zu octets) does not end with access unit %d = octets [%zu,%zu) of the stream (%zu octets); its piece of the input is [%zu,%zu)", cutname[r], no, o->size, x, as, ae, L, pq[no], pq[no] + o->size - pp[no]);
@@ -382,7 +417,7 @@ static int run(const uint8_t *tp_, size_t len_, struct vp_report *rep, unsigned 
             }
         }
         if (ret == 0 && no < fx->nout)
-            ret = vp_fail(rep, "C17/framer/extra", "%s: %d outputs for %d access units; output %d (%zu octets) is the piece [%zu,%zu) of the input", cutname[r], fx->nout, nexp, no, fx->out[no].size, pq[no], pq[no] + fx->out[no].size - pp[no]);
+            ret = vp_fail(rep, "C17/framer/extra", "%s: %d outputs for %d access units; output %d has %zu octets", cutname[r], fx->nout, nexp, no, fx->out[no].size);
         if (ret == 0 && (fx->n_fatal || fx->n_error))
             ret = vp_fail(rep, "C17/framer/event", "%s: %d fatal and %d error events on a valid stream", cutname[r], fx->n_fatal, fx->n_error);
         if (ret == 0 && nexp && fx->n_sync_acq != 1)
@@ -428,6 +463,7 @@ static int run(const uint8_t *tp_, size_t len_, struct vp_report *rep, unsigned 
     for (size_t i = 2; i < len; i++) if (st[i] == 3 && st[i - 1] == 0 && st[i - 2] == 0) { rep->classes |= 1u << CL_ESC; break; }
     if (nout0 == 0) rep->classes |= 1u << CL_NOOUT;
     if (cut_after_sc) rep->classes |= 1u << CL_CUT_AFTER_SC;
+    if (oe != UREF_H26X_ENCAPS_ANNEXB) rep->classes |= 1u << CL_CONVERTED;
     rep->nontrivial = cut_in_sc && nout0 >= 2;
     return ret;
 }
